@@ -1,0 +1,394 @@
+//! Verification hooks. Compiled only with `--cfg rbp_verif`; inert unless one of the
+//! `RBP_VERIF_*` environment variables is set.
+//!
+//!  * `RBP_VERIF_TRACE=<file>`    NDJSON event log, one event per state-machine action
+//!  * `RBP_VERIF_SKIP=a,b`        event names that are not logged
+//!  * `RBP_VERIF_ABORT_AT=<n>`    `abort()` right after the n-th logged event (crash point)
+//!  * `RBP_VERIF_JITTER=<seed>`   seeded delays inside the parallel closures
+//!  * `RBP_VERIF_MODE=<driver>`   stdin-driven entry points into single components
+use std::fs::{File, OpenOptions};
+use std::io::{self, BufRead, Read, Seek, SeekFrom, Write};
+use std::str::FromStr;
+use std::sync::{Mutex, OnceLock};
+
+use crate::blockchain::parser::reader::{BlockchainRead, XorReader};
+use crate::blockchain::parser::types::CoinType;
+use crate::blockchain::proto::script::{self, ScriptPattern};
+use crate::common::utils;
+
+struct Tracer {
+    out: Option<File>,
+    seq: u64,
+    abort_at: Option<u64>,
+    skip: Vec<String>,
+}
+
+static TRACER: OnceLock<Mutex<Tracer>> = OnceLock::new();
+
+fn tracer() -> &'static Mutex<Tracer> {
+    TRACER.get_or_init(|| {
+        let out = std::env::var("RBP_VERIF_TRACE").ok().map(|p| {
+            OpenOptions::new()
+                .create(true)
+                .append(true)
+                .open(p)
+                .expect("rbp_verif: cannot open trace file")
+        });
+        let abort_at = std::env::var("RBP_VERIF_ABORT_AT")
+            .ok()
+            .and_then(|v| v.parse().ok());
+        let skip = std::env::var("RBP_VERIF_SKIP")
+            .map(|v| v.split(',').map(String::from).collect())
+            .unwrap_or_default();
+        Mutex::new(Tracer {
+            out,
+            seq: 0,
+            abort_at,
+            skip,
+        })
+    })
+}
+
+/// True if events are recorded at all (lets call sites skip building expensive fields)
+pub fn on() -> bool {
+    let t = tracer().lock().unwrap();
+    t.out.is_some() || t.abort_at.is_some()
+}
+
+/// Records one event. `fields` are pre-rendered JSON members (without braces), may be empty.
+pub fn ev(name: &str, fields: &str) {
+    let mut t = tracer().lock().unwrap();
+    if t.out.is_none() && t.abort_at.is_none() {
+        return;
+    }
+    if t.skip.iter().any(|s| s == name) {
+        return;
+    }
+    t.seq += 1;
+    let seq = t.seq;
+    if let Some(f) = t.out.as_mut() {
+        let sep = if fields.is_empty() { "" } else { "," };
+        let line = format!("{{\"seq\":{},\"ev\":\"{}\"{}{}}}\n", seq, name, sep, fields);
+        let _ = f.write_all(line.as_bytes());
+    }
+    if t.abort_at == Some(seq) {
+        std::process::abort();
+    }
+}
+
+/// Renders a string as JSON string literal
+pub fn js(s: &str) -> String {
+    let mut o = String::with_capacity(s.len() + 2);
+    o.push('"');
+    for c in s.chars() {
+        match c {
+            '"' => o.push_str("\\\""),
+            '\\' => o.push_str("\\\\"),
+            c if (c as u32) < 0x20 => o.push_str(&format!("\\u{:04x}", c as u32)),
+            c => o.push(c),
+        }
+    }
+    o.push('"');
+    o
+}
+
+/// Number of open file descriptors of this process
+pub fn fds() -> usize {
+    std::fs::read_dir("/proc/self/fd")
+        .map(|d| d.count().saturating_sub(1))
+        .unwrap_or(0)
+}
+
+/// Called from inside the parallel closures: optional seeded delay plus an `eval` event
+pub fn eval_hook(kind: &str, ident: u64) {
+    if let Ok(seed) = std::env::var("RBP_VERIF_JITTER") {
+        let seed: u64 = seed.parse().unwrap_or(0);
+        let mut x = seed ^ ident.wrapping_mul(0x9E37_79B9_7F4A_7C15) ^ (kind.len() as u64) << 56;
+        x ^= x >> 33;
+        x = x.wrapping_mul(0xff51_afd7_ed55_8ccd);
+        x ^= x >> 33;
+        match x % 4 {
+            0 => std::thread::yield_now(),
+            1 => std::thread::sleep(std::time::Duration::from_micros(x % 300)),
+            _ => {}
+        }
+    }
+    if std::env::var("RBP_VERIF_EVAL").is_ok() {
+        let tid = rayon::current_thread_index()
+            .map(|i| i as i64)
+            .unwrap_or(-1);
+        ev(
+            "eval",
+            &format!("\"kind\":\"{}\",\"id\":{},\"tid\":{}", kind, ident, tid),
+        );
+    }
+}
+
+/// `Read + Seek` wrapper which records every primitive read
+struct TracingReader<R> {
+    inner: R,
+    pos: u64,
+    reads: Vec<(u64, usize, usize)>,
+}
+
+impl<R: Read> Read for TracingReader<R> {
+    fn read(&mut self, buf: &mut [u8]) -> io::Result<usize> {
+        let n = self.inner.read(buf)?;
+        self.reads.push((self.pos, buf.len(), n));
+        self.pos += n as u64;
+        Ok(n)
+    }
+}
+
+impl<R: Seek> Seek for TracingReader<R> {
+    fn seek(&mut self, pos: SeekFrom) -> io::Result<u64> {
+        self.pos = self.inner.seek(pos)?;
+        Ok(self.pos)
+    }
+}
+
+fn pattern_json(p: &ScriptPattern) -> String {
+    match p {
+        ScriptPattern::OpReturn(d) => format!(
+            "\"pattern\":\"OpReturn\",\"data\":\"{}\"",
+            utils::arr_to_hex(d.as_bytes())
+        ),
+        p => format!("\"pattern\":{}", js(&format!("{}", p))),
+    }
+}
+
+fn panic_msg(e: Box<dyn std::any::Any + Send>) -> String {
+    if let Some(s) = e.downcast_ref::<&str>() {
+        s.to_string()
+    } else if let Some(s) = e.downcast_ref::<String>() {
+        s.clone()
+    } else {
+        String::from("?")
+    }
+}
+
+/// Returns true if a driver ran instead of the normal program.
+pub fn driver() -> bool {
+    let mode = match std::env::var("RBP_VERIF_MODE") {
+        Ok(m) => m,
+        Err(_) => return false,
+    };
+    std::panic::set_hook(Box::new(|_| {}));
+    let stdin = io::stdin();
+    let stdout = io::stdout();
+    let mut out = io::BufWriter::new(stdout.lock());
+    match mode.as_str() {
+        // line: "<version_id hex> <script hex>"
+        "script-eval" => {
+            for line in stdin.lock().lines() {
+                let line = line.unwrap();
+                let mut it = line.split_whitespace();
+                let ver = u8::from_str_radix(it.next().unwrap_or("00"), 16).unwrap();
+                let bytes = utils::hex_to_vec(it.next().unwrap_or(""));
+                let r = std::panic::catch_unwind(|| script::eval_from_bytes(&bytes, ver));
+                match r {
+                    Ok(e) => {
+                        let addr = match e.address {
+                            Some(a) => js(&a),
+                            None => String::from("null"),
+                        };
+                        writeln!(out, "{{{},\"address\":{}}}", pattern_json(&e.pattern), addr)
+                            .unwrap();
+                    }
+                    Err(e) => writeln!(out, "{{\"panic\":{}}}", js(&panic_msg(e))).unwrap(),
+                }
+            }
+        }
+        // first line: "<path> <key hex or -> <buffer capacity>", then "seek <p>" | "read <n>" | "reopen"
+        "xor-ops" => {
+            let mut lines = stdin.lock().lines();
+            let first = lines.next().unwrap().unwrap();
+            let mut it = first.split_whitespace();
+            let path = it.next().unwrap().to_string();
+            let key = match it.next().unwrap() {
+                "-" => None,
+                k => Some(utils::hex_to_vec(k)),
+            };
+            let cap: usize = it.next().unwrap().parse().unwrap();
+            let open = |path: &str, key: &Option<Vec<u8>>| {
+                XorReader::new(
+                    seek_bufread::BufReader::with_capacity(cap, File::open(path).unwrap()),
+                    key.clone(),
+                )
+            };
+            let mut rd = open(&path, &key);
+            for line in lines {
+                let line = line.unwrap();
+                let mut it = line.split_whitespace();
+                match it.next() {
+                    Some("seek") => {
+                        let p: u64 = it.next().unwrap().parse().unwrap();
+                        let r = rd.seek(SeekFrom::Start(p));
+                        writeln!(
+                            out,
+                            "{{\"op\":\"seek\",\"ret\":{},\"pos\":{}}}",
+                            r.map(|v| v as i64).unwrap_or(-1),
+                            rd.verif_pos()
+                        )
+                        .unwrap();
+                    }
+                    Some("read") => {
+                        let n: usize = it.next().unwrap().parse().unwrap();
+                        let mut buf = vec![0u8; n];
+                        let mut got = 0;
+                        while got < n {
+                            match rd.read(&mut buf[got..]) {
+                                Ok(0) => break,
+                                Ok(k) => got += k,
+                                Err(_) => break,
+                            }
+                        }
+                        writeln!(
+                            out,
+                            "{{\"op\":\"read\",\"data\":\"{}\",\"pos\":{}}}",
+                            utils::arr_to_hex(&buf[..got]),
+                            rd.verif_pos()
+                        )
+                        .unwrap();
+                    }
+                    Some("reopen") => {
+                        rd = open(&path, &key);
+                        writeln!(out, "{{\"op\":\"reopen\",\"pos\":{}}}", rd.verif_pos()).unwrap();
+                    }
+                    _ => {}
+                }
+            }
+        }
+        // line: "<coin> <size prefix> <block hex>" -> primitive reads and decoded identities
+        "read-block" => {
+            for line in stdin.lock().lines() {
+                let line = line.unwrap();
+                let mut it = line.split_whitespace();
+                let coin = CoinType::from_str(it.next().unwrap()).unwrap();
+                let size: u32 = it.next().unwrap().parse().unwrap();
+                let bytes = utils::hex_to_vec(it.next().unwrap_or(""));
+                let r = std::panic::catch_unwind(|| {
+                    let mut rd = TracingReader {
+                        inner: io::Cursor::new(bytes),
+                        pos: 0,
+                        reads: vec![],
+                    };
+                    let blk = rd.read_block(size, &coin);
+                    (blk, rd.reads, rd.pos)
+                });
+                match r {
+                    Ok((Ok(b), reads, pos)) => {
+                        let reads: Vec<String> = reads
+                            .iter()
+                            .map(|(p, want, got)| format!("[{},{},{}]", p, want, got))
+                            .collect();
+                        let txs: Vec<String> = b
+                            .txs
+                            .iter()
+                            .map(|t| {
+                                format!(
+                                    "{{\"txid\":\"{}\",\"nin\":{},\"nout\":{}}}",
+                                    t.hash,
+                                    t.value.inputs.len(),
+                                    t.value.outputs.len()
+                                )
+                            })
+                            .collect();
+                        writeln!(
+                            out,
+                            "{{\"ok\":true,\"hash\":\"{}\",\"aux\":{},\"end\":{},\"txs\":[{}],\"reads\":[{}]}}",
+                            b.header.hash,
+                            b.aux_pow_extension.is_some(),
+                            pos,
+                            txs.join(","),
+                            reads.join(",")
+                        )
+                        .unwrap();
+                    }
+                    Ok((Err(e), _, pos)) => writeln!(
+                        out,
+                        "{{\"ok\":false,\"end\":{},\"err\":{}}}",
+                        pos,
+                        js(&format!("{}", e))
+                    )
+                    .unwrap(),
+                    Err(e) => writeln!(out, "{{\"panic\":{}}}", js(&panic_msg(e))).unwrap(),
+                }
+            }
+        }
+        // line: "<hex>" -> Bitcoin Core VarInt value and bytes consumed
+        "varint" => {
+            for line in stdin.lock().lines() {
+                let bytes = utils::hex_to_vec(line.unwrap().trim());
+                let r = std::panic::catch_unwind(|| {
+                    crate::blockchain::parser::verif_read_varint(&bytes)
+                });
+                match r {
+                    Ok(Some((v, n))) => writeln!(out, "{{\"value\":\"{}\",\"used\":{}}}", v, n),
+                    Ok(None) => writeln!(out, "{{\"err\":true}}"),
+                    Err(e) => writeln!(out, "{{\"panic\":{}}}", js(&panic_msg(e))),
+                }
+                .unwrap();
+            }
+        }
+        // line: "<u32> <u32> ..." -> mean as printed with 6 decimals
+        "get-mean" => {
+            for line in stdin.lock().lines() {
+                let v: Vec<u32> = line
+                    .unwrap()
+                    .split_whitespace()
+                    .map(|x| x.parse().unwrap())
+                    .collect();
+                match std::panic::catch_unwind(|| utils::get_mean(&v)) {
+                    Ok(m) => writeln!(out, "{{\"mean\":\"{:.6}\"}}", m),
+                    Err(e) => writeln!(out, "{{\"panic\":{}}}", js(&panic_msg(e))),
+                }
+                .unwrap();
+            }
+        }
+        // line: "<index path>" -> every key/value pair
+        "index-dump" => {
+            use rusty_leveldb::{LdbIterator, Options, DB};
+            for line in stdin.lock().lines() {
+                let path = line.unwrap();
+                let mut it = DB::open(path.trim(), Options::default())
+                    .unwrap()
+                    .new_iter()
+                    .unwrap();
+                let (mut k, mut v) = (vec![], vec![]);
+                while it.advance() {
+                    it.current(&mut k, &mut v);
+                    writeln!(out, "{} {}", utils::arr_to_hex(&k), utils::arr_to_hex(&v)).unwrap();
+                }
+                writeln!(out, "END").unwrap();
+            }
+        }
+        // first line: "<index path>", then "<key hex> <value hex>"
+        "index-build" => {
+            use rusty_leveldb::{Options, DB};
+            let mut lines = stdin.lock().lines();
+            let path = lines.next().unwrap().unwrap();
+            let mut opt = Options::default();
+            opt.create_if_missing = true;
+            let mut db = DB::open(path.trim(), opt).unwrap();
+            let mut n = 0u64;
+            for line in lines {
+                let line = line.unwrap();
+                let mut it = line.split_whitespace();
+                let k = utils::hex_to_vec(it.next().unwrap());
+                let v = utils::hex_to_vec(it.next().unwrap_or(""));
+                db.put(&k, &v).unwrap();
+                n += 1;
+            }
+            db.flush().unwrap();
+            db.close().unwrap();
+            writeln!(out, "{{\"written\":{}}}", n).unwrap();
+        }
+        m => {
+            eprintln!("rbp_verif: unknown driver {}", m);
+            std::process::exit(2);
+        }
+    }
+    out.flush().unwrap();
+    true
+}
